@@ -26,17 +26,21 @@ theorem safe_parseStringVal : Safe c ok parseStringVal (fun _ => True) := by
   have hp := safe_parseSubstitution (c := c) hf huq false
   exact safe_parseStringWith hf hp (huq _ hp) false
 
+set_option maxHeartbeats 4000000 in
 theorem safe_parseImport (spread : Bool) : Safe c ok (parseImport spread) (fun _ => True) := by
   unfold parseImport
   have h1 := safe_parseKey (c := c) hf huq
   safe_auto
 
+set_option maxHeartbeats 4000000 in
 theorem safe_parseEdges (src : Option KP) : Safe c ok (parseEdges src) (fun _ => True) := by
   unfold parseEdges
   have h1 := safe_parseKey (c := c) hf huq
   have h2 := fun p => safe_parseEdge (c := c) hf p
   safe_auto
 
+set_option maxHeartbeats 4000000 in
+set_option maxHeartbeats 4000000 in
 theorem safe_parseMapKeyValue {pv : P VBox} (hpv : Safe c ok pv (fun _ => True)) (mk : KeyRec) :
     Safe c ok (parseMapKeyValue pv mk) (fun _ => True) := by
   unfold parseMapKeyValue
@@ -44,6 +48,7 @@ theorem safe_parseMapKeyValue {pv : P VBox} (hpv : Safe c ok pv (fun _ => True))
 
 theorem safe_setEdgeGroup (b : Bool) : Safe c ok (setEdgeGroup b) (fun _ => True) := safe_modify fun _ => rfl
 
+set_option maxHeartbeats 4000000 in
 theorem safe_parseEdgeGroup {pv : P VBox} (hpv : Safe c ok pv (fun _ => True)) (mk : KeyRec) :
     Safe c ok (parseEdgeGroup pv mk) (fun _ => True) := by
   unfold parseEdgeGroup
@@ -58,6 +63,7 @@ theorem safe_finishMapKey (mk : KeyRec) : Safe c ok (finishMapKey mk) (fun _ => 
   unfold finishMapKey
   safe_auto
 
+set_option maxHeartbeats 4000000 in
 theorem safe_parseMapKey {pv : P VBox} (hpv : Safe c ok pv (fun _ => True)) :
     Safe c ok (parseMapKey pv) (fun _ => True) := by
   unfold parseMapKey
@@ -68,6 +74,7 @@ theorem safe_parseMapKey {pv : P VBox} (hpv : Safe c ok pv (fun _ => True)) :
   have h5 := fun m => safe_finishMapKey (c := c) hf huq m
   safe_auto
 
+set_option maxHeartbeats 4000000 in
 theorem safe_parseNodePrefix (r : Char) : Safe c ok (parseNodePrefix r) (fun _ => True) := by
   unfold parseNodePrefix
   have h1 := safe_parseComment (c := c) hf
@@ -76,6 +83,7 @@ theorem safe_parseNodePrefix (r : Char) : Safe c ok (parseNodePrefix r) (fun _ =
   have h4 := fun b => safe_parseImport (c := c) hf huq b
   safe_auto
 
+set_option maxHeartbeats 4000000 in
 theorem safe_parseMapNode {pv : P VBox} (hpv : Safe c ok pv (fun _ => True)) (r : Char) (hr : r ≠ '\n') :
     Safe c ok (parseMapNode pv r) (fun _ => True) := by
   unfold parseMapNode
@@ -83,6 +91,7 @@ theorem safe_parseMapNode {pv : P VBox} (hpv : Safe c ok pv (fun _ => True)) (r 
   have h2 := safe_parseMapKey (c := c) hf huq hpv
   safe_auto
 
+set_option maxHeartbeats 4000000 in
 theorem safe_parseMap {pv : P VBox} (hpv : Safe c ok pv (fun _ => True)) (isFileMap : Bool) :
     Safe c ok (parseMap pv isFileMap) (fun _ => True) := by
   unfold parseMap
@@ -92,12 +101,14 @@ theorem safe_parseMap {pv : P VBox} (hpv : Safe c ok pv (fun _ => True)) (isFile
   have hd := safe_decDepth (c := c) (ok := ok)
   safe_auto
 
+set_option maxHeartbeats 4000000 in
 theorem safe_parseArrayNode {pv : P VBox} (hpv : Safe c ok pv (fun _ => True)) (r : Char) (hr : r ≠ '\n') :
     Safe c ok (parseArrayNode pv r) (fun _ => True) := by
   unfold parseArrayNode
   have h1 := safe_parseNodePrefix (c := c) hf huq r
   safe_auto
 
+set_option maxHeartbeats 4000000 in
 theorem safe_parseArray {pv : P VBox} (hpv : Safe c ok pv (fun _ => True)) :
     Safe c ok (parseArray pv) (fun _ => True) := by
   unfold parseArray
@@ -107,6 +118,7 @@ theorem safe_parseArray {pv : P VBox} (hpv : Safe c ok pv (fun _ => True)) :
   have hd := safe_decDepth (c := c) (ok := ok)
   safe_auto
 
+set_option maxHeartbeats 4000000 in
 theorem safe_parseValueBody (isNum : String → Bool) {pv : P VBox} (hpv : Safe c ok pv (fun _ => True)) :
     Safe c ok (parseValueBody isNum pv) (fun _ => True) := by
   unfold parseValueBody
@@ -114,7 +126,23 @@ theorem safe_parseValueBody (isNum : String → Bool) {pv : P VBox} (hpv : Safe 
   have h2 := fun b => safe_parseMap (c := c) hf huq hpv b
   have h3 := fun b => safe_parseImport (c := c) hf huq b
   have h4 := safe_parseStringVal (c := c) hf huq
-  safe_auto
+  refine safe_bind (by safe_prim) fun _ _ => ?_
+  split
+  · safe_auto
+  · refine safe_ite (fun _ => ?_) (fun _ => ?_)
+    · safe_auto
+    · refine safe_bind (by safe_prim) fun _ _ => ?_
+      refine safe_ite (fun _ => ?_) (fun _ => ?_)
+      · safe_auto
+      · refine safe_ite (fun _ => ?_) (fun _ => ?_)
+        · safe_auto
+        · refine safe_ite (fun _ => ?_) (fun _ => ?_)
+          · safe_auto
+          · refine safe_bind (by safe_prim) fun _ _ => ?_
+            refine safe_bind (by safe_prim) fun _ _ => ?_
+            split
+            · safe_auto
+            · repeat' (first | exact safe_pure trivial | refine safe_ite (fun _ => ?_) (fun _ => ?_))
 
 theorem safe_parseValueN (isNum : String → Bool) (n : Nat) : Safe c ok (parseValueN isNum n) (fun _ => True) := by
   induction n with
